@@ -395,8 +395,8 @@ theorem swapT_content_partial (dflt : ν) (r k : Nat) (t : Tree (List α) ν (r 
 
 /-- **Unflatten at every depth** (Tensor.unflattenRanks(depth=k, levels=l+1)) — partial: stated
     for trees in which no fiber at depth `k` is without elements (otherwise `IndexError` — open
-    finding) and for the tree only (the result tensor's default is not carried over — open
-    finding).  Then for every `k`, `l`, `r`: success, a well-formed result, every point moved to
+    finding).  The result tensor keeps the operand's default (/repo e4536c9), so both contents are
+    taken relative to the same `dflt`, whatever it is.  Then for every `k`, `l`, `r`: success, a well-formed result, every point moved to
     its image (coordinate `k` split into `l+2` coordinates), order preserved. -/
 theorem unflattenT_content_partial (dflt : ν) (r l k : Nat) (t : Tree (List α) ν (r + 1 + k))
     (hw : WF (r + 1 + k) t) (hsome : allEmptyAt dflt r k t = false)
@@ -414,6 +414,71 @@ theorem unflattenT_content_partial (dflt : ν) (r l k : Nat) (t : Tree (List α)
   have hs' := List.all_eq_true.1 hsub s hs
   exact unflatLv_spec dflt _ _ (lexSplit_list (α := α)) r l s
     (fun h => by rw [h] at hs'; simp at hs') hws
+
+/-- **Flatten then unflatten restores the tensor's content — at every depth, for every default.**
+    `Tensor.flattenRanks(depth=k, levels=1, tuple / pair)` followed by
+    `Tensor.unflattenRanks(depth=k, levels=1)` (which keeps the default since /repo e4536c9), on a
+    well-formed non-empty tensor whose fibers at depth `k` are non-empty and hold integer
+    coordinates: both succeed, the result is well-formed and has the original's content, relative
+    to the same default; `z` (the implementation's `Payload(0)` fallback) is arbitrary, i.e. the
+    tensor default need not be 0.  (An empty fiber at depth `k ≥ 1` makes the unflatten raise —
+    open finding; more levels: `unflatten_flatten` with the hypotheses of
+    `flattenT_tuple_content_partial`.) -/
+theorem flatten_unflatten_roundtrip (mf : List ν → Option ν) (z dflt : ν) (r k : Nat)
+    (t : Tree (List α) ν (r + 2 + k)) (hw : WF (r + 2 + k) t)
+    (hne : isEmpty dflt (r + 2 + k) t = false)
+    (hsub : (subsAt (r + 2) k t).all (fun s => upperArB r 0 [1] s && !isEmpty dflt (r + 2) s) = true) :
+    ∃ u t', mergeT true false z (tupleComb (α := α)) mf dflt r 0 k t = some u ∧
+      unflattenT (fun c => c.take 1) (fun c => c.drop 1) dflt r 0 k u = some t' ∧
+      WF (r + 2 + k) t' ∧ content dflt (r + 2 + k) t' = content dflt (r + 2 + k) t := by
+  -- the flatten of one fiber at depth k, for any z
+  have h1 : ∀ s ∈ subsAt (r + 2) k t, WF (r + 2) s →
+      mergeLvA true false z (tupleComb (α := α)) mf dflt r 0 s = some (flatLv (tupleComb (α := α)) dflt r 0 s) ∧
+      MonoLv (tupleComb (α := α)) dflt r 0 s := by
+    intro s hs hws
+    have hs' := List.all_eq_true.1 hsub s hs
+    rw [Bool.and_eq_true] at hs'
+    have hm := monoLv_tuple dflt r 0 [1] s hws ((upperArB_iff r 0 [1] s).1 hs'.1)
+    refine ⟨?_, hm⟩
+    show (merge2T (tupleComb 0) mf z dflt r s).map _ = _
+    rw [merge2T_sorted (tupleComb 0) mf z dflt r s hm]
+    exact congrArg some (untag_tagWith dflt (show List (List α × Tree (List α) ν r) from flat2 (tupleComb 0) dflt r s))
+  -- the flattened tensor
+  obtain ⟨u, hu, huw, huc⟩ := atDepth_spec_eq dflt dflt (r + 2) (r + 1)
+    (mergeLvA true false z (tupleComb (α := α)) mf dflt r 0) (joinTop (tupleComb (α := α)) 0) k t hw
+    (fun s hs hws => ⟨_, (h1 s hs hws).1, flatLv_wf _ dflt r 0 s hws (h1 s hs hws).2, content_flatLv _ dflt r 0 s⟩)
+  -- flatten ; unflatten on one fiber
+  obtain ⟨t', ht', htw, htc⟩ := atDepth_spec_eq dflt dflt (r + 2) (r + 2)
+    (fun s => (mergeLvA true false z (tupleComb (α := α)) mf dflt r 0 s).bind
+      (unflatLv (fun c => c.take 1) (fun c => c.drop 1) r 0)) (fun q => q) k t hw
+    (fun s hs hws => by
+      have hs' := List.all_eq_true.1 hsub s hs
+      rw [Bool.and_eq_true] at hs'
+      obtain ⟨g, hg, hgw, hgc⟩ := unflatten_flatten dflt r 0 s hws hs'.1 (by simpa using hs'.2)
+      refine ⟨g, ?_, hgw, ?_⟩
+      · rw [(h1 s hs hws).1]; exact hg
+      · rw [hgc, List.map_id'])
+  refine ⟨u, t', hu, ?_, htw, ?_⟩
+  · unfold unflattenT
+    have hg : allEmptyAt dflt r k u = false := by
+      rw [allEmptyAt_eq_isEmpty]
+      cases he : isEmpty dflt (r + 1 + k) u with
+      | false => rfl
+      | true =>
+        have := (isEmpty_iff_content dflt _ u).1 he
+        rw [huc, List.map_eq_nil_iff] at this
+        rw [(isEmpty_iff_content dflt _ t).2 this] at hne
+        cases hne
+    rw [hg]
+    simp only [Bool.false_eq_true, if_false]
+    rw [atDepth_bind _ _ k t u hu]
+    exact ht'
+  · rw [htc]
+    conv => rhs; rw [← List.map_id (content dflt (r + 2 + k) t)]
+    apply List.map_congr_left
+    intro pv _
+    rw [liftN_id]
+    rfl
 
 end tuples
 
@@ -605,6 +670,20 @@ example : ∃ G : Fib Int (List Int), Sorted G ∧
       merge2 (fun _ c => c) mfSum (0 : Int) 0 0 tM =
         (mapM? (fun row => (foldVals mfSum row.2).map (fun v => (row.1, v))) G).map (fun l => show TI 1 from l) :=
   merge_leaf_spec (fun _ c => c) mfSum (0 : Int) 0 tM
+
+-- flatten ; unflatten with default 7: the stored 0 is a value, the stored 7 is empty — both survive
+def tR : TC 2 := show List (Coord × TC 1) from
+  [([1], mkC1 [([1], 0), ([2], 7)]), ([2], mkC1 [([0], 3)])]
+example : ∃ u t', mergeT true false (0 : Int) (tupleComb (α := Int)) mfRaise (7 : Int) 0 0 0 tR = some u ∧
+      unflattenT (fun c => c.take 1) (fun c => c.drop 1) (7 : Int) 0 0 0 u = some t' ∧
+      WF 2 t' ∧ content (7 : Int) 2 t' = content (7 : Int) 2 tR :=
+  flatten_unflatten_roundtrip mfRaise (0 : Int) (7 : Int) 0 0 tR ((wfB_iff 2 tR).1 (by decide)) (by decide) (by decide)
+example : content (7 : Int) 2 tR = [([[1], [1]], 0), ([[2], [0]], 3)] := by decide
+-- … and below rank A (depth = 1) of a three-rank tensor with default 7
+example : ∃ u t', mergeT true false (0 : Int) (tupleComb (α := Int)) mfRaise (7 : Int) 0 0 1 tD = some u ∧
+      unflattenT (fun c => c.take 1) (fun c => c.drop 1) (7 : Int) 0 0 1 u = some t' ∧
+      WF 3 t' ∧ content (7 : Int) 3 t' = content (7 : Int) 3 tD :=
+  flatten_unflatten_roundtrip mfRaise (0 : Int) (7 : Int) 0 1 tD ((wfB_iff 3 tD).1 (by decide)) (by decide) (by decide)
 
 end C09.Ex
 
